@@ -10,7 +10,7 @@ _NIDX = None if THOROUGH else 2
 SEG_ACTS = H.actions('seg', H.FULL_OPS + H.REJECT_OPS, _NAMES, _NIDX)
 MSG_ACTS = H.actions('msg', H.FULL_OPS + H.REJECT_OPS, _NAMES, _NIDX)
 FLD_ACTS = H.actions('fld', H.FULL_OPS + H.REJECT_OPS, _NAMES, _NIDX)
-CORE_SEG = H.actions('seg', H.CORE_OPS + [H.REATTACH, H.OTHERLVL, H.SETELEM, H.IDXELEMLVL, H.READ, H.DTCHANGE])
+CORE_SEG = H.actions('seg', H.CORE_OPS + [H.REATTACH, H.OTHERLVL, H.SETELEM, H.IDXELEMLVL, H.READ, H.DTCHANGE, H.NESTED, H.PROXYVAL], [0, 2], 2)
 NSEG, NMSG, NFLD, NCORE = len(SEG_ACTS), len(MSG_ACTS), len(FLD_ACTS), len(CORE_SEG)
 NINIT = {'seg': 3, 'msg': 2, 'fld': 2}
 NI_SEG, NI_MSG, NI_FLD = 3, 2, 2
